@@ -17,14 +17,17 @@ Definition open_collector (w : world) (d : dest) : option (N * collector) :=
   | None => None
   end.
 
-Lemma queue_send_zero e d w : t_collect (cfg w) = 0 -> queue_send e d w = send_sd [e] d w.
-Proof. intros H. unfold queue_send. rewrite H. reflexivity. Qed.
+Lemma queue_send_zero e d w : t_collect (cfg w) = 0 ->
+  queue_send e d w = send_sd [e] d (ghost (GFlush d [e]) (ghost (GQueue e d) w)).
+Proof. intros H. unfold queue_send, queue_core. cbn [cfg ghost set_glog]. rewrite H. reflexivity. Qed.
 
 Lemma queue_send_append e d w c co :
   t_collect (cfg w) <> 0 -> open_collector w d = Some (c, co) ->
-  queue_send e d w = set_collectors (aset N.eqb c (mkColl (co_dest co) (co_data co ++ [e]) false) (collectors w)) w.
+  queue_send e d w = set_collectors (aset N.eqb c (mkColl (co_dest co) (co_data co ++ [e]) false) (collectors w))
+                                    (ghost (GQueue e d) w).
 Proof.
-  intros Hc Ho. unfold queue_send. destruct (N.eqb_spec (t_collect (cfg w)) 0) as [E|_]; [contradiction|].
+  intros Hc Ho. unfold queue_send, queue_core. cbn [cfg ghost set_glog queues collectors].
+  destruct (N.eqb_spec (t_collect (cfg w)) 0) as [E|_]; [contradiction|].
   unfold open_collector in Ho. rewrite Ho. reflexivity.
 Qed.
 
@@ -37,7 +40,8 @@ Lemma queue_send_new e d w :
   /\ aget dest_eqb d (queues w') = Some (next_id w)
   /\ collectors w' = collectors w ++ [(next_id w, mkColl d [e] false)].
 Proof.
-  intros Hc Ho. unfold queue_send. destruct (N.eqb_spec (t_collect (cfg w)) 0) as [E|_]; [contradiction|].
+  intros Hc Ho. unfold queue_send, queue_core. cbn [cfg ghost set_glog queues collectors].
+  destruct (N.eqb_spec (t_collect (cfg w)) 0) as [E|_]; [contradiction|].
   unfold open_collector in Ho. rewrite Ho. cbn. repeat split.
   apply (aget_aset_same dest_eqb dest_eqb_eq).
 Qed.
@@ -46,7 +50,8 @@ Lemma collector_timeout_spec c w co :
   aget N.eqb c (collectors w) = Some co ->
   collector_timeout c w
   = send_sd (co_data co) (co_dest co)
-      (set_collectors (aset N.eqb c (mkColl (co_dest co) (co_data co) true) (collectors w)) w).
+      (set_collectors (aset N.eqb c (mkColl (co_dest co) (co_data co) true) (collectors w))
+                      (ghost (GFlush (co_dest co) (co_data co)) w)).
 Proof. intros H. unfold collector_timeout. rewrite H. reflexivity. Qed.
 
 Lemma send_sd_empty d w : send_sd [] d w = w.
